@@ -47,6 +47,15 @@ EXPECTED_MISSES = {
 
 # (id, property, expected rule prefix, edits)
 FIRE: List[Tuple[str, str, str, List[Tuple[str, str, str]]]] = [
+    ("size-varint-shift-loop-0x80", "C09", "L4", [(I, "    elif value < 0:\n        return 10\n    elif value == 0:\n        return 1\n    else:\n        return math.ceil(value.bit_length() / 7)\n", "    elif value < 0:\n        return 10\n    size = 1\n    while value > 0x80:\n        value >>= 7\n        size += 1\n    return size\n")]),
+    ("size-varint-shift-loop-by-8", "C09", "L4", [(I, "    elif value < 0:\n        return 10\n    elif value == 0:\n        return 1\n    else:\n        return math.ceil(value.bit_length() / 7)\n", "    elif value < 0:\n        return 10\n    size = 1\n    while value > 0x7F:\n        value >>= 8\n        size += 1\n    return size\n")]),
+    ("dump-float-nan-by-table", "C05", "K1", [(I, "    if isinstance(value, float) and math.isnan(value):\n        return NAN\n    return value\n", "    return {math.nan: NAN}.get(value, value)\n")]),
+    ("parse-float-neg-infinity-sign-lost", "C05", "K1", [(I, "    if value == NEG_INFINITY:\n        return -float(\"inf\")\n", "    if value == NEG_INFINITY:\n        return float(\"inf\")\n")]),
+    ("default-cached-per-class", "C06", "D8", [(I, "            return self._betterproto.default_gen[field_name]()\n", "            return self._betterproto.default_gen.setdefault(\"=\" + field_name, self._betterproto.default_gen[field_name]())\n")]),
+    ("load-defers-assignments-in-dict", "C07", "O6", [(I, "            else:\n                setattr(self, field_name, value)\n\n        if size is not None and read < size:", "            else:\n                pending[field_name] = value\n\n        for field_name, value in pending.items():\n            setattr(self, field_name, value)\n\n        if size is not None and read < size:"), (I, "        read = 0\n        fields = load_fields(stream)\n", "        read = 0\n        pending = {}\n        fields = load_fields(stream)\n")]),
+    ("load-stops-at-first-unknown", "C08", "U9", [(I, "            if not field_name:\n                self._unknown_fields += parsed.raw\n                continue\n", "            if not field_name:\n                self._unknown_fields += parsed.raw\n                if parsed.number > 1000:\n                    break\n                continue\n")]),
+    ("builtins-import-overwritten", "C03", "P14", [(MD, "        output_file.builtins_import = output_file.builtins_import or self.use_builtins\n", "        output_file.builtins_import = bool(self.use_builtins)\n")]),
+    ("repeated-element-empty-not-forced", "C02", "D2", [(I, "                                wraps=meta.wraps or \"\",\n                                serialize_empty=True,\n                            )\n                            # if it's an empty message it still needs to be represented\n                            # as an item in the repeated list\n                            or b\"\\n\\x00\"\n", "                                wraps=meta.wraps or \"\",\n                            )\n                            # if it's an empty message it still needs to be represented\n                            # as an item in the repeated list\n                            or b\"\\n\\x00\"\n")]),
     ("decode-varint-scan-no-eof", "C17", "N", [(I, "    with BytesIO(buffer) as stream:\n        stream.seek(pos)\n        value, raw = load_varint(stream)\n    return value, pos + len(raw)\n", "    result = 0\n    shift = 0\n    while pos < len(buffer):\n        if shift >= 64:\n            raise ValueError(\"Too many bytes when decoding varint.\")\n        b_int = buffer[pos]\n        pos += 1\n        result |= (b_int & 0x7F) << shift\n        if not (b_int & 0x80):\n            break\n        shift += 7\n    return result, pos\n")]),
     ("decode-varint-scan-9-bytes", "C16", "N", [(I, "    with BytesIO(buffer) as stream:\n        stream.seek(pos)\n        value, raw = load_varint(stream)\n    return value, pos + len(raw)\n", "    result = 0\n    for shift in range(0, 63, 7):\n        if pos >= len(buffer):\n            raise EOFError(\"Buffer ended unexpectedly while attempting to decode varint.\")\n        b_int = buffer[pos]\n        pos += 1\n        result |= (b_int & 0x7F) << shift\n        if not (b_int & 0x80):\n            return result, pos\n    raise ValueError(\"Too many bytes when decoding varint.\")\n")]),
     ("key-single-byte-up-to-16", "C01", "T7", [(I, "        key = encode_varint(field_number << 3)\n", "        key = (field_number << 3).to_bytes(1, \"little\") if field_number <= 16 else encode_varint(field_number << 3)\n")]),
@@ -150,6 +159,11 @@ CODEC = ["C01", "C02", "C06", "C08", "C09", "C10", "C16", "C17", "C20"]
 
 # (id, properties that must stay at exit 0, edits)  -- behaviour-preserving refactors
 SILENT: List[Tuple[str, List[str], List[Any]]] = [
+    ("size-varint-shift-loop", ["C09", "C16", "C10"], [(I, "    elif value < 0:\n        return 10\n    elif value == 0:\n        return 1\n    else:\n        return math.ceil(value.bit_length() / 7)\n", "    elif value < 0:\n        return 10\n    size = 1\n    while value > 0x7F:\n        value >>= 7\n        size += 1\n    return size\n")]),
+    ("size-varint-shift-loop-ge", ["C09", "C16", "C10"], [(I, "    elif value < 0:\n        return 10\n    elif value == 0:\n        return 1\n    else:\n        return math.ceil(value.bit_length() / 7)\n", "    elif value < 0:\n        return 10\n    size = 1\n    while value >= 0x80:\n        value >>= 7\n        size += 1\n    return size\n")]),
+    ("dump-float-isfinite-first", ["C04", "C05"], [(I, "    if value == float(\"inf\"):\n        return INFINITY\n    if value == -float(\"inf\"):\n        return NEG_INFINITY\n    if isinstance(value, float) and math.isnan(value):\n        return NAN\n    return value\n", "    if not isinstance(value, float) or math.isfinite(value):\n        return value\n    if math.isnan(value):\n        return NAN\n    return INFINITY if value > 0 else NEG_INFINITY\n")]),
+    ("load-defers-assignments-in-list", ["C07", "C08", "C10", "C01", "C02"], [(I, "            else:\n                setattr(self, field_name, value)\n\n        if size is not None and read < size:", "            else:\n                pending.append((field_name, value))\n\n        for field_name, value in pending:\n            setattr(self, field_name, value)\n\n        if size is not None and read < size:"), (I, "        read = 0\n        fields = load_fields(stream)\n", "        read = 0\n        pending = []\n        fields = load_fields(stream)\n")]),
+    ("builtins-import-if-form", ["C03", "C18"], [(MD, "        output_file.builtins_import = output_file.builtins_import or self.use_builtins\n", "        if self.use_builtins:\n            output_file.builtins_import = True\n")]),
     ("duration-floor-split-with-fixup", ["C15", "C01", "C02"], [(I, "        seconds, us = divmod(abs(total_us), 10**6)\n        if total_us < 0:\n            seconds, us = -seconds, -us\n", "        seconds, us = divmod(total_us, 10**6)\n        if total_us < 0 and us:\n            seconds, us = seconds + 1, us - 10**6\n")]),
     ("decode-varint-scans-buffer", ["C01", "C02", "C08", "C16", "C17", "C10"], [(I, "    with BytesIO(buffer) as stream:\n        stream.seek(pos)\n        value, raw = load_varint(stream)\n    return value, pos + len(raw)\n", "    result = 0\n    for shift in range(0, 64, 7):\n        if pos >= len(buffer):\n            raise EOFError(\"Buffer ended unexpectedly while attempting to decode varint.\")\n        b_int = buffer[pos]\n        pos += 1\n        result |= (b_int & 0x7F) << shift\n        if not (b_int & 0x80):\n            return result, pos\n    raise ValueError(\"Too many bytes when decoding varint.\")\n")]),
     ("key-single-byte-below-16", ["C01", "C02", "C09"], [(I, "        key = encode_varint(field_number << 3)\n", "        key = (field_number << 3).to_bytes(1, \"little\") if field_number < 16 else encode_varint(field_number << 3)\n")]),
